@@ -206,7 +206,16 @@ fn gen_table(rng: &mut Rng) -> Table {
             return;
         }
         let al = if rng.chance(1, 3) { ALPHA } else { PLAIN };
-        let v = gen_string(rng, al, 3);
+        // the value is usually unrelated to the key; but also: the key itself (an identity rule protects its span from
+        // lower-casing / NFKC and from shorter keys), a string that contains the key (rules are applied once, the result
+        // is not scanned again), the key of another rule (a -> b, b -> c is not a -> c)
+        let v = match rng.below(10) {
+            0 | 1 => k.clone(),
+            2 => format!("{}{}", k, gen_string(rng, al, 2)),
+            3 => format!("{}{}", gen_string(rng, al, 1), k),
+            4 if !pairs.is_empty() => rng.pick(&pairs[..]).0.clone(),
+            _ => gen_string(rng, al, 3),
+        };
         pairs.push((k, v));
     };
     for _ in 0..nk {
@@ -1261,12 +1270,19 @@ fn gen_def_text(rng: &mut Rng) -> String {
             _ => {
                 let k = def_token(rng, 3);
                 // values that start with '#', are "#", contain '#'
-                let v = match rng.below(6) {
+                let v = match rng.below(10) {
                     0 => "#".to_string(),
                     1 => format!("#{}", def_token(rng, 2)),
                     2 => format!("{}#", def_token(rng, 2)),
+                    // identity rule, value containing the key, value that is the key of an earlier rule
+                    3 | 4 => k.clone(),
+                    5 => format!("{}{}", k, def_token(rng, 2)),
+                    6 if !keys.is_empty() => rng.pick(&keys).clone(),
                     _ => def_token(rng, 3),
                 };
+                // rules whose key extends the key of an earlier rule / is extended by it
+                let k = if !keys.is_empty() && rng.chance(1, 4) { format!("{}{}", rng.pick(&keys), k) } else { k };
+                let v = if v.is_empty() { k.clone() } else { v };
                 line.push_str(&format!("{}{}{}", k, rng.pick(DEF_SEPS), v));
                 keys.push(k);
             }
@@ -1352,7 +1368,8 @@ fn deftext_stream(sink: &mut Sink, env: &mut Env, rng: &mut Rng, n: usize) {
     // char::is_whitespace of std = the White_Space set the reader model uses
     let ws: Vec<u32> = (0..=0x10FFFFu32).filter(|c| char::from_u32(*c).map_or(false, |ch| ch.is_whitespace())).collect();
     sink.case(format!("check_white_space {}", clist(ws.iter().map(|c| cn(*c)))), json!({"kind": "white-space-set"}), true);
-    for d in ["# c\r\n\r\n Ⅲ \r\n♯\t#\r\na#b   x\r\n", "♯ #\n№ #no.\n＃\t#\n", "a x # comment\n", "ab # x\n", " #a b\n\t# c\nx\u{3000}y", "a x\n\na y\n"] {
+    for d in ["# c\r\n\r\n Ⅲ \r\n♯\t#\r\na#b   x\r\n", "♯ #\n№ #no.\n＃\t#\n", "a x # comment\n", "ab # x\n", " #a b\n\t# c\nx\u{3000}y", "a x\n\na y\n",
+        "ＮＨＫ ＮＨＫ\n", "ｱ ア\nｱｲ\tｱｲ\n", "ab x\nabc abc\n", "a b\nb c\n", "a aa\naa a\n"] {
         deftext_case(sink, env, rng, d, None, false);
     }
     for _ in 0..n {
@@ -1471,6 +1488,14 @@ fn directed(sink: &mut Sink, env: &mut Env, rng: &mut Rng) {
         (vec![("ab", "y"), ("a", "x"), ("abc", "zz")], vec![], vec!["abcabＡa", "abcab", "abx\u{3099}"]),
         (vec![("か\u{3099}", "が"), ("ｶﾞ", "ガ")], vec!['Ⅲ', '゛'], vec!["か\u{3099}ｶﾞⅢ", "ｶﾞ", "ｶ゛", "Ⅲⅲ"]),
         (vec![("A", "b"), ("b", "A")], vec!['Ａ'], vec!["AbＡ", "ab", "Ab"]),
+        // identity rules: the key's span is kept as written (no lower-casing, no NFKC), also when shorter keys / the
+        // optimised path are involved; values containing their key; chains (rules are applied once)
+        (vec![("ＮＨＫ", "ＮＨＫ")], vec![], vec!["ＮＨＫ", "ＮＨＫ語", "xＮＨＫ", "ＮＨ"]),
+        (vec![("ｱ", "ア"), ("ｱｲ", "ｱｲ")], vec![], vec!["ｱｲｱ", "ｱｲ", "ｱ", "ｲｱｲ"]),
+        (vec![("ab", "x"), ("abc", "abc")], vec![], vec!["ababcab", "abc", "abcab", "abcＡ"]),
+        (vec![("a", "b"), ("b", "c")], vec![], vec!["ab", "ba", "aab", "aＡ"]),
+        (vec![("a", "aa"), ("aa", "a"), ("b", "ab")], vec![], vec!["aaa", "a", "aaaa", "ba", "Ａb"]),
+        (vec![("A", "A"), ("ab", "ab")], vec![], vec!["Aab", "abA", "AB", "aba"]),
         (vec![], vec![], vec!["ǅ", "\u{1F88}", "İ", "ẞ", "Σ", "\u{FDFA}", "e\u{301}", "\u{212B}", "\u{3385}", ""]),
         (vec![], vec!['ǅ', 'İ', '㈱', 'Ａ'], vec!["ǅ", "İ", "㈱", "Ａ", "aǅ"]),
     ];
@@ -1488,7 +1513,7 @@ fn directed(sink: &mut Sink, env: &mut Env, rng: &mut Rng) {
 pub fn run(args: &Args) {
     let mut sink = Sink::new("C07", &args.out, &["Model.Normalize", "Model.RewriteDefText"], args.seed, &args.tier);
     sink.shard_size = 120;
-    sink.rule("(a) DefaultInputTextPlugin: random rewrite.def tables (0..6 keys of 1..3 code points over {a,b,c} or a 53-character alphabet of upper-case / full-width / compatibility / combining / title-case / astral characters; chains of keys that are prefixes of other keys; multi-character values; 0..3 exempt characters) x texts built from keys, truncated keys, exempt characters and the alphabet; one third of the texts are fast-path texts, half of those are re-run next to an unrelated full-width letter (context pair); (b) ProlongedSoundMarkPlugin: random mark sets incl. regex-special characters x symbols (default, multi-character, empty) x texts dense in marks; (c) IgnoreYomiganaPlugin: the natural, the two shipped and random char.def files (short runs, single points, touching runs, ALL blocks, classes overlapping each other and the brackets) / bracket sets / max length; the kanji and reading classes of the oracle and of the Coq model are derived from the TEXT of the char.def (union of definition lines), never from the implementation; for every definition range the code points begin-1, begin, end, end+1 are probed in the kanji position and in the reading position of an otherwise perfect candidate, and random texts dense in kanji-bracket-reading-bracket candidates draw those positions from both sides of every range end; (e) sessions: one InputBuffer (reset / start_build / plugin rewrite / build) and one StatefulTokenizer + one MorphemeList (reset / do_tokenize / collect_results, which swaps the two input buffers) reused over sequences of 3..8 texts mixing already-normalised and to-be-normalised ones; every step is compared with the specification, the Coq model and a fresh buffer (non-trivial = a text needing the general path in a buffer that held an earlier text); (f) rewrite.def as TEXT: files generated line by line (comments, indented comments, blank / white-space-only lines, exempt characters, rules separated by space / tab / ideographic space / NBSP / several of them, keys and values that contain or start with '#', one-column lines of several characters, lines of three or four columns incl. 'rule # words', repeated keys, LF / CR LF, with or without final line end); accept / reject (+ error kind and line number) compared with the Coq model of the reader and an independent Rust statement of the format, and texts normalised with the loaded plugin compared with normalize_spec of the table the MODEL reads from the same text; sessions additionally contain texts accepted by start_build but rejected at commit (normalisation > 65535 bytes) and texts rejected by start_build, followed by ordinary texts; (d) every Unicode scalar value alone and between neighbours for the shipped tables (stride in the quick tier), and the oracle laws over all scalar values. non-trivial = a key occurs or some character changes (a), a run of >= 2 marks occurs (b), something is removed (c); distinct by generated Coq term");
+    sink.rule("(a) DefaultInputTextPlugin: random rewrite.def tables (0..6 keys of 1..3 code points over {a,b,c} or a 53-character alphabet of upper-case / full-width / compatibility / combining / title-case / astral characters; chains of keys that are prefixes of other keys; multi-character values; identity rules (value = key), values that contain their key, values that are another rule's key; 0..3 exempt characters) x texts built from keys, truncated keys, exempt characters and the alphabet; one third of the texts are fast-path texts, half of those are re-run next to an unrelated full-width letter (context pair); (b) ProlongedSoundMarkPlugin: random mark sets incl. regex-special characters x symbols (default, multi-character, empty) x texts dense in marks; (c) IgnoreYomiganaPlugin: the natural, the two shipped and random char.def files (short runs, single points, touching runs, ALL blocks, classes overlapping each other and the brackets) / bracket sets / max length; the kanji and reading classes of the oracle and of the Coq model are derived from the TEXT of the char.def (union of definition lines), never from the implementation; for every definition range the code points begin-1, begin, end, end+1 are probed in the kanji position and in the reading position of an otherwise perfect candidate, and random texts dense in kanji-bracket-reading-bracket candidates draw those positions from both sides of every range end; (e) sessions: one InputBuffer (reset / start_build / plugin rewrite / build) and one StatefulTokenizer + one MorphemeList (reset / do_tokenize / collect_results, which swaps the two input buffers) reused over sequences of 3..8 texts mixing already-normalised and to-be-normalised ones; every step is compared with the specification, the Coq model and a fresh buffer (non-trivial = a text needing the general path in a buffer that held an earlier text); (f) rewrite.def as TEXT: files generated line by line (comments, indented comments, blank / white-space-only lines, exempt characters, rules separated by space / tab / ideographic space / NBSP / several of them, keys and values that contain or start with '#', one-column lines of several characters, lines of three or four columns incl. 'rule # words', repeated keys, LF / CR LF, with or without final line end); accept / reject (+ error kind and line number) compared with the Coq model of the reader and an independent Rust statement of the format, and texts normalised with the loaded plugin compared with normalize_spec of the table the MODEL reads from the same text; sessions additionally contain texts accepted by start_build but rejected at commit (normalisation > 65535 bytes) and texts rejected by start_build, followed by ordinary texts; (d) every Unicode scalar value alone and between neighbours for the shipped tables (stride in the quick tier), and the oracle laws over all scalar values. non-trivial = a key occurs or some character changes (a), a run of >= 2 marks occurs (b), something is removed (c); distinct by generated Coq term");
     let mut env = Env::new(args);
     if let Some(p) = &args.replay {
         let v: Value = serde_json::from_str(&std::fs::read_to_string(p).unwrap()).unwrap();
